@@ -978,6 +978,11 @@ class Interp(CallMixin):
     def hashable(self, k: Any, node: ast.AST, frame: Optional[Frame]) -> Any:
         if isinstance(k, (str, int, bool, EnumVal, tuple, StrT, ClassVal, frozenset)) or k is None:
             return k
+        if isinstance(k, Obj) and k.cls in self.model.classes and not self.is_attrs(k.cls) \
+                and "typing.NamedTuple" not in self.model.mro(k.cls) \
+                and self.model.find_method(self.model.classes[k.cls], "__eq__") is None \
+                and self.model.find_method(self.model.classes[k.cls], "__hash__") is None:
+            return k  # a plain class instance hashes and compares by identity, like the abstract object itself
         raise Unsupported(f"unhashable/opaque dict key {k!r} at line {getattr(node, 'lineno', '?')}")
 
     def comprehension(self, e: ast.expr, frame: Frame) -> Any:
